@@ -2,7 +2,7 @@
 `from_bytes ∘ to_bytes`: the ext-type encoding of leaves and the state dict ↔ msgpack value
 conversion are inverse, and the whole pipeline round-trips (`Flax/Model/Serial.lean`).
 -/
-import Flax.Proofs.Chunk
+import Flax.Proofs.SerialChunk
 import Flax.Proofs.Msgpack
 
 namespace Flax.Serial
